@@ -6,12 +6,14 @@
 #include <tins/tcp_ip/ack_tracker.h>
 using namespace Tins;
 
+// own function: its loop gets its own unwinding bound (the snapshot can be a few kilobytes when a change adds a static table)
+extern "C" __attribute__((noinline)) bool c18_same(const uint8_t* a, const uint8_t* b, uint64_t n) { bool same = true; for (uint64_t i = 0; i < n; ++i) same = same && a[i] == b[i]; return same; }
 struct Frame {
     uint8_t* before; uint64_t n;
     Frame() { n = vp_globals_size(); before = vp_alloc((uint32_t)n); vp_globals_snapshot(before); }
     void check() {
         uint8_t* after = vp_alloc((uint32_t)n); vp_globals_snapshot(after);
-        bool same = true; for (uint64_t i = 0; i < n; ++i) same = same && before[i] == after[i];
+        bool same = c18_same(before, after, n);
         vp_assert(same, "the operation leaves every mutable global of the library unchanged");
         vp_free(after); vp_free(before);
     }
